@@ -25,6 +25,7 @@ def bounds(tier, seed):
 
 
 def cases(tier, seed):
+    yield from extra_cases(tier, seed)
     D = 3
     for ground in (False, True):
         P, f, lam = geom.lattice(seed, ground=ground)
@@ -87,6 +88,29 @@ def cases(tier, seed):
                 edges = [list(es[i]) for i in order]
                 yield dict(env='free', f=f, pts=pts, edges=edges, segsets=[[2, 2, 2]],
                            perturb2=dict(hub=hub[0], mag=0.7e-3))
+
+
+def extra_cases(tier, seed):
+    from mcx.props import c06
+    for c in c06.extras(tier, seed):
+        for i, ws in enumerate(c['descs']):
+            yield dict(extra='%s#%d' % (c['extra'], i), env=c['env'], f=c['f'], wires=ws)
+
+
+def eval_extra(c):
+    """two-object structures with a curved or tapered member: pulse count formula and pulse geometry"""
+    ground = c['env'] != 'free'
+    m = geom.build(dict(f=c['f'], env=c['env'], wires=c['wires']), sources=False, loads=False)
+    viol = list(geom.pulse_geometry_violations(m))
+    nseg = sum(g.n_segments for g in m.geo)
+    ngnd = sum(int(a) + int(b) for g in m.geo for a, b in [g.is_ground])
+    N = nseg - len(m.geo) + ngnd + 1          # one 2-end junction
+    if len(m.pulses) != N:
+        viol.append(('COUNT', 'pulses %d expected %d' % (len(m.pulses), N)))
+    seq = [p.idx for g in m.geo for p in g.pulses]
+    if seq != list(range(len(m.pulses))):
+        viol.append(('NUMBERING', 'pulse idx in object order: %s' % seq))
+    return dict(viol=[(a, c['extra'] + ': ' + b) for a, b in viol[:5]], canon='extra|' + c['extra'], nontriv=True, outcome='extra', dev=0.0)
 
 
 def _mkcase(c, segs):
@@ -212,6 +236,8 @@ def check_model(m, case, ground):
 
 
 def evaluate(c):
+    if 'extra' in c:
+        return eval_extra(c)
     import mininec.mininec as mm
     ground = c['env'] != 'free'
     viol, canon, nontriv, outcomes = [], [], [], {}
